@@ -1,14 +1,25 @@
 package checks
 
 import (
+	"encoding/json"
+
 	"verif/harness"
 )
 
 func init() {
-	Runners["C15"] = fileRunner(RunC15)
+	fr, qr := fileRunner(RunC15), queueRunner(RunC15Queue)
+	Runners["C15"] = func(raw json.RawMessage) (Result, error) {
+		var probe struct {
+			Steps []json.RawMessage `json:"steps"`
+		}
+		if json.Unmarshal(raw, &probe) == nil && probe.Steps != nil {
+			return qr(raw)
+		}
+		return fr(raw)
+	}
 	harness.Specs["C15"] = &harness.PropSpec{
 		ID: "C15", Test: "TestC15", Kind: "file", Level: "exploration",
-		Quick: 12000, Thorough: 150000,
+		Quick: 6000, Thorough: 100000,
 		Rule: "generated prefix history, then EVERY cell of the method x receiver-state matrix: Tx methods (Commit, Rollback, Close, Flush, " +
 			"CheckpointWAL, Alloc, AllocN, Page, RootPage, Root, SetRoot, PageSize, Active/Readonly/Writable) and Page methods (Bytes, Load, SetBytes incl. " +
 			"oversize, MarkDirty, Free, Flush, accessors) x {committed, rolled back, closed, failed commit} x {read-write, read-only}; write methods in an " +
@@ -42,4 +53,15 @@ func RunC15(p *harness.Program) Result {
 	c := r.Counters
 	nt := c["misuse-matrix"] > 0 && c["misuse-cell"] >= 150
 	return Result{V: v, Counters: c, Nontrivial: nt}
+}
+
+// RunC15Queue executes a queue program containing misuse steps.
+func RunC15Queue(p *harness.QProgram) Result {
+	r, v := harness.NewQRunner(p, harness.QOpts{CheckCounters: true})
+	if v != nil {
+		return Result{V: v}
+	}
+	v = r.Run()
+	c := r.Counters
+	return Result{V: v, Counters: c, Nontrivial: c["misuse-matrix"] > 0 && c["event"] > 0}
 }
